@@ -436,19 +436,24 @@ def exact_arrays_normalised(prog, cd, rep, rule="eq-exact-arrays"):
                             and e.targets[0].value.id == sn_i and e.targets[0].attr == attr):
                         continue
                     n += 1
-                    v = e.value
-                    good = False
-                    if isinstance(v, ast.Call) and norm(v.func) in ("np.array", "np.asarray", "numpy.array", "numpy.asarray", "np.ascontiguousarray", "np.fromiter"):
-                        d_ = next((k.value for k in v.keywords if k.arg == "dtype"), v.args[1] if len(v.args) > 1 else None)
-                        good = d_ is not None and is_dt(d_, dt)
-                    elif isinstance(v, ast.Call) and isinstance(v.func, ast.Attribute) and v.func.attr == "astype" and v.args:
-                        good = is_dt(v.args[0], dt)
-                    elif isinstance(v, ast.Name):
-                        for t_, pol in flat_facts(pe.guards):
-                            if pol and isinstance(t_, ast.Compare) and len(t_.ops) == 1 and isinstance(t_.ops[0], ast.Eq):
-                                for a_, b_ in ((t_.left, t_.comparators[0]), (t_.comparators[0], t_.left)):
-                                    if norm(a_) == f"{v.id}.dtype" and is_dt(b_, dt):
-                                        good = True
+
+                    def judge(v, guards):
+                        """the stored value is of the codec's type, given the facts (test, outcome) that hold where it is stored"""
+                        if isinstance(v, ast.IfExp):
+                            return judge(v.body, guards + [(v.test, True)]) and judge(v.orelse, guards + [(v.test, False)])
+                        if isinstance(v, ast.Call) and norm(v.func) in ("np.array", "np.asarray", "numpy.array", "numpy.asarray", "np.ascontiguousarray", "np.fromiter"):
+                            d_ = next((k.value for k in v.keywords if k.arg == "dtype"), v.args[1] if len(v.args) > 1 else None)
+                            return d_ is not None and is_dt(d_, dt)
+                        if isinstance(v, ast.Call) and isinstance(v.func, ast.Attribute) and v.func.attr == "astype" and v.args:
+                            return is_dt(v.args[0], dt)
+                        if isinstance(v, ast.Name):
+                            for t_, pol in flat_facts(guards):
+                                if isinstance(t_, ast.Compare) and len(t_.ops) == 1 and ((pol and isinstance(t_.ops[0], ast.Eq)) or (not pol and isinstance(t_.ops[0], ast.NotEq))):
+                                    for a_, b_ in ((t_.left, t_.comparators[0]), (t_.comparators[0], t_.left)):
+                                        if norm(a_) == f"{v.id}.dtype" and is_dt(b_, dt):
+                                            return True
+                        return False
+                    good = judge(e.value, list(pe.guards))
                     if good:
                         rep.ok(rule, f"{c.name}.__init__: `{attr}` is stored as {dt.kind}{dt.size}, the type it is written and exactly compared in", nontrivial=True)
                     else:
